@@ -98,7 +98,7 @@ def _run_in(binpath, args, cwd, input_text=None, timeout=600):
 
 def build_flavour(m, flavour):
     exe = "drv_" + flavour.replace("-", "_")
-    ok, log = D.compile_c(m.dir, flavour, exe)
+    ok, log = D.compile_c(m.dir, flavour, exe, trap=True)
     if not ok:
         raise vlib.InfraError("compiling module %s with %s failed:\n%s" % (m.tag, flavour, log[-3000:]))
     return exe
